@@ -287,7 +287,14 @@ def r09_3(ctx):
 
 
 def rules(ctx):
-    return [r09_1, r09_2, r09_3, c07.r07_3]
+    from . import c06
+    out = [r09_1, r09_2, r09_3, c07.r07_3, c06.r06_1]
+    try:
+        from . import c20
+        out += [c20.r20_1, c20.r20_2]
+    except ImportError:
+        pass
+    return out
 
 
 EXPLANATION = (
